@@ -28,13 +28,33 @@ deriving Repr, DecidableEq
 inductive Sys | setNB | clearNB | poll (ms : Int) | recvmsg
 deriving Repr, DecidableEq
 
-/-- kernel recvmsg on the channel socket followed by the (blocking) reassembly of `recv` -/
-def recvmsg (k : K) : Res × K :=
+/-- one recvmsg(2) on the channel socket (followed by the blocking reassembly of `recv`).  `race`: the kernel looks at the queue
+first and at the peer's shutdown afterwards; a peer that queues a packet and closes in between makes it report end of
+file although a packet is queued — possible only once no sender is left -/
+def kernelRecv (k : K) (race : Bool) : Res × K :=
   match k.queue with
-  | (t, c) :: q => (if c then .msg t else .waitsSender t, { k with queue := q })
+  | (t, c) :: q =>
+    if race && !k.peerAlive then (.disconnected, k)
+    else (if c then .msg t else .waitsSender t, { k with queue := q })
   | [] => if !k.peerAlive then (.disconnected, k)        -- returns 0
           else if k.nonblock then (.empty, k)            -- EAGAIN
           else (.blocks, k)
+
+/-- the answer without the race (what the rest of the file calls "the kernel's recvmsg") -/
+def recvmsg (k : K) : Res × K := kernelRecv k false
+
+/-- `confirm` (read from the source: `Gen.shape_eofConfirmed`): after an end of file the code looks at the queue once more,
+without blocking.  The second look cannot be overtaken — the shutdown is visible already, nothing more can arrive. -/
+def recvConfirmed (confirm : Bool) (k : K) (race : Bool) : List Sys × Res × K :=
+  match kernelRecv k race with
+  | (.disconnected, k1) =>
+    if confirm then
+      match kernelRecv k1 false with
+      | (.msg t, k2) => ([.recvmsg, .recvmsg], .msg t, k2)
+      | (.waitsSender t, k2) => ([.recvmsg, .recvmsg], .waitsSender t, k2)
+      | (_, k2) => ([.recvmsg, .recvmsg], .disconnected, k2)
+    else ([.recvmsg], .disconnected, k1)
+  | (r, k1) => ([.recvmsg], r, k1)
 
 /-- the argument handed to poll(2) for a `Duration` of `micros` microseconds, regenerated from the source:
 `duration.as_<unit>().try_into().unwrap_or(-1)` with a C `int` target -/
@@ -43,24 +63,97 @@ def pollArg (micros : Nat) : Int :=
   if v < 2 ^ 31 then (v : Int) else -1
 
 /-- `pollTimedOut`: the kernel's answer to poll(); it may say "timed out" only if nothing was ready for the whole wait -/
-def call (k : K) (m : Mode) (pollTimedOut : Bool) : List Sys × Res × K :=
+def callV (confirm : Bool) (k : K) (m : Mode) (pollTimedOut : Bool) (race : Bool) : List Sys × Res × K :=
   match m with
-  | .blocking => let (r, k') := recvmsg k; ([.recvmsg], r, k')
+  | .blocking => recvConfirmed confirm k race
   | .nonblocking =>
     let k1 := { k with nonblock := true }                 -- fcntl(F_SETFL, O_NONBLOCK)
-    let (r, k2) := recvmsg k1
-    ([.setNB, .recvmsg, .clearNB], r, { k2 with nonblock := false })   -- fcntl(F_SETFL, 0) on every outcome
+    let (tr, r, k2) := recvConfirmed confirm k1 race
+    ([.setNB] ++ tr ++ [.clearNB], r, { k2 with nonblock := false })   -- fcntl(F_SETFL, 0) on every outcome
   | .timeout us =>
     if pollTimedOut then ([.poll (pollArg us)], .empty, k)              -- Errno(EAGAIN)
-    else let (r, k') := recvmsg k; ([.poll (pollArg us), .recvmsg], r, k')
+    else let (tr, r, k') := recvConfirmed confirm k race; (.poll (pollArg us) :: tr, r, k')
 
-def recvFirst (k : K) (m : Mode) (pollTimedOut : Bool) : Res × K := (call k m pollTimedOut).2
+/-- the variant the source has now -/
+def call (k : K) (m : Mode) (pollTimedOut : Bool) (race : Bool := false) : List Sys × Res × K :=
+  callV Gen.shape_eofConfirmed k m pollTimedOut race
+
+/-- result and new state in the repaired variant (end of file confirmed), for any `race` -/
+def recvFirstR (k : K) (m : Mode) (pollTimedOut : Bool) (race : Bool) : Res × K := (callV true k m pollTimedOut race).2
+def recvFirst (k : K) (m : Mode) (pollTimedOut : Bool) : Res × K := recvFirstR k m pollTimedOut false
 
 def pollConsistent (k : K) (pollTimedOut : Bool) : Prop := pollTimedOut = true → k.queue = [] ∧ k.peerAlive = true
 
+/-- the repaired receive answers exactly like the race-free kernel, whatever the race does -/
+theorem confirmed_eq (k : K) (race : Bool) : (recvConfirmed true k race).2 = recvmsg k := by
+  unfold recvConfirmed recvmsg kernelRecv
+  cases hq : k.queue with
+  | nil => by_cases hp : k.peerAlive = true <;> by_cases hn : k.nonblock = true <;> simp [hp, hn, hq]
+  | cons hd q =>
+    obtain ⟨t, c⟩ := hd
+    by_cases hr : (race && !k.peerAlive) = true
+    · cases c <;> simp [hr, hq]
+    · cases c <;> simp [hr]
+
+theorem recvFirstR_eq (k : K) (m : Mode) (b race : Bool) : recvFirstR k m b race = recvFirstR k m b false := by
+  cases m with
+  | blocking => simp [recvFirstR, callV, confirmed_eq]
+  | nonblocking =>
+    simp only [recvFirstR, callV]
+    have h1 := confirmed_eq { k with nonblock := true } race
+    have h2 := confirmed_eq { k with nonblock := true } false
+    generalize recvConfirmed true { k with nonblock := true } race = a at h1
+    generalize recvConfirmed true { k with nonblock := true } false = b' at h2
+    obtain ⟨t1, r1, k1⟩ := a
+    obtain ⟨t2, r2, k2⟩ := b'
+    simp only at h1 h2 ⊢
+    rw [← h2] at h1
+    injection h1 with h1 h1'
+    rw [h1, h1']
+  | timeout us =>
+    cases b
+    · simp only [recvFirstR, callV]
+      have h1 := confirmed_eq k race
+      have h2 := confirmed_eq k false
+      generalize recvConfirmed true k race = a at h1
+      generalize recvConfirmed true k false = b' at h2
+      obtain ⟨t1, r1, k1⟩ := a
+      obtain ⟨t2, r2, k2⟩ := b'
+      simp only at h1 h2 ⊢
+      rw [← h2] at h1
+      injection h1 with h1 h1'
+      simp [h1, h1']
+    · simp [recvFirstR, callV]
+
+/-- in terms of the race-free kernel answer -/
+theorem recvFirst_spec (k : K) (m : Mode) (b : Bool) :
+    recvFirst k m b = match m with
+      | .blocking => recvmsg k
+      | .nonblocking => ((recvmsg { k with nonblock := true }).1, { (recvmsg { k with nonblock := true }).2 with nonblock := false })
+      | .timeout _ => if b then (.empty, k) else recvmsg k := by
+  cases m with
+  | blocking => simp [recvFirst, recvFirstR, callV, confirmed_eq]
+  | nonblocking =>
+    simp only [recvFirst, recvFirstR, callV]
+    have h1 := confirmed_eq { k with nonblock := true } false
+    generalize recvConfirmed true { k with nonblock := true } false = a at h1
+    obtain ⟨_, r1, k1⟩ := a
+    simp only at h1 ⊢
+    rw [← h1]
+  | timeout us =>
+    cases b
+    · simp only [recvFirst, recvFirstR, callV]
+      have h1 := confirmed_eq k false
+      generalize recvConfirmed true k false = a at h1
+      obtain ⟨_, r1, k1⟩ := a
+      simp only at h1 ⊢
+      simp [← h1]
+    · simp [recvFirst, recvFirstR, callV]
+
 /-- **C10_flag**: whatever the mode and outcome, the description is left in blocking mode -/
 theorem flag_restored (k : K) (m : Mode) (b : Bool) (h : k.nonblock = false) : (recvFirst k m b).2.nonblock = false := by
-  cases m <;> simp [recvFirst, call, recvmsg] <;> (repeat' split) <;> simp_all
+  rw [recvFirst_spec]
+  cases m <;> simp [recvmsg, kernelRecv] <;> (repeat' split) <;> simp_all
 
 /-- **C10_try**: try_recv never waits on the channel socket; head message if one is completely queued, `empty` iff idle
 and connected, `disconnected` iff finished; it waits for a sender only when that sender is in the middle of the head message -/
@@ -71,12 +164,12 @@ theorem try_outcome (k : K) (b : Bool) :
     (k.queue = [] → k.peerAlive = false → (recvFirst k .nonblocking b).1 = .disconnected) ∧
     (∀ t, (recvFirst k .nonblocking b).1 = .waitsSender t → ∃ q, k.queue = (t, false) :: q) := by
   refine ⟨?_, ?_, ?_, ?_, ?_⟩
-  · simp [recvFirst, call, recvmsg]; (repeat' split) <;> simp_all
-  · intro t q hq; simp [recvFirst, call, recvmsg, hq]
-  · intro hq hp; simp [recvFirst, call, recvmsg, hq, hp]
-  · intro hq hp; simp [recvFirst, call, recvmsg, hq, hp]
+  · simp [recvFirst_spec, recvmsg, kernelRecv]; (repeat' split) <;> simp_all
+  · intro t q hq; simp [recvFirst_spec, recvmsg, kernelRecv, hq]
+  · intro hq hp; simp [recvFirst_spec, recvmsg, kernelRecv, hq, hp]
+  · intro hq hp; simp [recvFirst_spec, recvmsg, kernelRecv, hq, hp]
   · intro t
-    simp only [recvFirst, call, recvmsg]
+    simp only [recvFirst_spec, recvmsg, kernelRecv]
     cases hq : k.queue with
     | nil => simp; (repeat' split) <;> simp_all
     | cons hd q =>
@@ -90,15 +183,15 @@ theorem timeout_outcome (k : K) (us : Nat) (b : Bool) (hk : k.nonblock = false) 
     (k.queue = [] → k.peerAlive = false → (recvFirst k (.timeout us) b).1 = .disconnected) := by
   refine ⟨?_, ?_, ?_⟩
   · cases b
-    · simp [recvFirst, call, recvmsg, hk]; (repeat' split) <;> simp_all
+    · simp [recvFirst_spec, recvmsg, kernelRecv, hk]; (repeat' split) <;> simp_all
     · simp
   · intro t q hq
     cases b
-    · simp [recvFirst, call, recvmsg, hq]
+    · simp [recvFirst_spec, recvmsg, kernelRecv, hq]
     · have := hc rfl; simp [hq] at this
   · intro hq hp
     cases b
-    · simp [recvFirst, call, recvmsg, hq, hp]
+    · simp [recvFirst_spec, recvmsg, kernelRecv, hq, hp]
     · have := hc rfl; simp [hp] at this
 
 theorem flag_after_calls (k : K) (calls : List (Mode × Bool)) (h : k.nonblock = false) :
@@ -113,7 +206,7 @@ theorem later_blocking_blocks (k : K) (calls : List (Mode × Bool)) (h : k.nonbl
     k'.queue = [] → k'.peerAlive = true → (recvFirst k' .blocking false).1 = .blocks := by
   intro k' hq hp
   have hflag : k'.nonblock = false := flag_after_calls k calls h
-  simp [recvFirst, call, recvmsg, hq, hp, hflag]
+  simp [recvFirst_spec, recvmsg, kernelRecv, hq, hp, hflag]
 
 /-- no message is lost or reordered by any mixture of the three calls: the tags returned (delivered or being waited for),
 in call order, followed by what is still queued, are the original queue -/
@@ -123,30 +216,88 @@ def tagOf : Res → List Nat
 theorem queue_conserved (k : K) (m : Mode) (b : Bool) :
     tagOf (recvFirst k m b).1 ++ (recvFirst k m b).2.queue.map Prod.fst = k.queue.map Prod.fst := by
   have hr : tagOf (recvmsg k).1 ++ (recvmsg k).2.queue.map Prod.fst = k.queue.map Prod.fst := by
-    unfold recvmsg
+    unfold recvmsg kernelRecv
     cases hq : k.queue with
     | nil => simp only []; (repeat' split) <;> simp_all [tagOf]
     | cons hd q => obtain ⟨t, c⟩ := hd; cases c <;> simp [tagOf]
   have hn : tagOf (recvmsg { k with nonblock := true }).1 ++ (recvmsg { k with nonblock := true }).2.queue.map Prod.fst
       = k.queue.map Prod.fst := by
-    unfold recvmsg
+    unfold recvmsg kernelRecv
     cases hq : k.queue with
     | nil => simp only []; (repeat' split) <;> simp_all [tagOf]
     | cons hd q => obtain ⟨t, c⟩ := hd; cases c <;> simp [tagOf]
   cases m with
-  | blocking => simpa [recvFirst, call] using hr
-  | nonblocking => simpa [recvFirst, call] using hn
+  | blocking => simpa [recvFirst_spec] using hr
+  | nonblocking => simpa [recvFirst_spec] using hn
   | timeout us =>
     cases b
-    · simpa [recvFirst, call] using hr
-    · simp [recvFirst, call, tagOf]
+    · simpa [recvFirst_spec] using hr
+    · simp [recvFirst_spec, tagOf]
 
-/-- the system calls issued: the flag is set only around one recvmsg, and recvmsg runs at most once per call -/
-theorem trace_shape (k : K) (m : Mode) (b : Bool) :
-    (call k m b).1 = [.recvmsg] ∨ (call k m b).1 = [.setNB, .recvmsg, .clearNB] ∨
-    (∃ us, m = .timeout us ∧ ((call k m b).1 = [.poll (pollArg us)] ∨ (call k m b).1 = [.poll (pollArg us), .recvmsg])) := by
-  cases m <;> simp [call]
-  split <;> simp
+/-- the system calls issued (repaired variant): the flag is set only around the receive, and the receive is one recvmsg, or two
+when the first reported end of file -/
+theorem trace_shape (k : K) (m : Mode) (b race : Bool) :
+    let rr := (callV true k m b race).1
+    rr = [.recvmsg] ∨ rr = [.recvmsg, .recvmsg] ∨ rr = [.setNB, .recvmsg, .clearNB] ∨ rr = [.setNB, .recvmsg, .recvmsg, .clearNB] ∨
+    (∃ us, m = .timeout us ∧ (rr = [.poll (pollArg us)] ∨ rr = [.poll (pollArg us), .recvmsg] ∨ rr = [.poll (pollArg us), .recvmsg, .recvmsg])) := by
+  have hc : ∀ k', (recvConfirmed true k' race).1 = [.recvmsg] ∨ (recvConfirmed true k' race).1 = [.recvmsg, .recvmsg] := by
+    intro k'
+    unfold recvConfirmed
+    generalize kernelRecv k' race = a
+    obtain ⟨r, k1⟩ := a
+    cases r <;> simp
+    generalize kernelRecv k1 false = a2
+    obtain ⟨r2, k2⟩ := a2
+    cases r2 <;> simp
+  cases m with
+  | blocking => rcases hc k with h | h <;> simp [callV, h]
+  | nonblocking =>
+    simp only [callV]
+    rcases hc { k with nonblock := true } with h | h
+    · generalize recvConfirmed true { k with nonblock := true } race = a at h
+      obtain ⟨t, r, k1⟩ := a; simp only at h; subst h; simp
+    · generalize recvConfirmed true { k with nonblock := true } race = a at h
+      obtain ⟨t, r, k1⟩ := a; simp only at h; subst h; simp
+  | timeout us =>
+    cases b
+    · simp only [callV]
+      rcases hc k with h | h
+      · generalize recvConfirmed true k race = a at h
+        obtain ⟨t, r, k1⟩ := a; simp only at h; subst h; simp
+      · generalize recvConfirmed true k race = a at h
+        obtain ⟨t, r, k1⟩ := a; simp only at h; subst h; simp
+    · simp [callV]
+
+/-- **no early end of file**: in the repaired variant `disconnected` is answered only when nothing is queued and no sender is left —
+also in the window in which the kernel's first answer is a premature end of file -/
+theorem disconnected_only_when_drained (k : K) (m : Mode) (b race : Bool) (h : (recvFirstR k m b race).1 = .disconnected) :
+    k.queue = [] ∧ k.peerAlive = false := by
+  rw [recvFirstR_eq] at h
+  have hs := recvFirst_spec k m b
+  unfold recvFirst at hs
+  rw [hs] at h
+  cases m with
+  | blocking =>
+    simp only [recvmsg, kernelRecv] at h
+    cases hq : k.queue with
+    | nil => rw [hq] at h; simp at h; by_cases hp : k.peerAlive = true <;> simp_all; split at h <;> simp at h
+    | cons hd q => obtain ⟨t, c⟩ := hd; rw [hq] at h; cases c <;> simp at h
+  | nonblocking =>
+    simp only [recvmsg, kernelRecv] at h
+    cases hq : k.queue with
+    | nil => rw [hq] at h; simp at h; by_cases hp : k.peerAlive = true <;> simp_all
+    | cons hd q => obtain ⟨t, c⟩ := hd; rw [hq] at h; cases c <;> simp at h
+  | timeout us =>
+    cases b
+    · simp only [recvmsg, kernelRecv] at h
+      cases hq : k.queue with
+      | nil => rw [hq] at h; simp at h; by_cases hp : k.peerAlive = true <;> simp_all; split at h <;> simp at h
+      | cons hd q => obtain ⟨t, c⟩ := hd; rw [hq] at h; cases c <;> simp at h
+    · simp at h
+
+/-- the variant without the confirming look: in the race window a queued message is overtaken by `disconnected` -/
+example : (callV false ⟨[(7, true)], false, false⟩ .nonblocking false true).2.1 = .disconnected := by decide
+example : (callV true ⟨[(7, true)], false, false⟩ .nonblocking false true).2.1 = .msg 7 := by decide
 
 /-- `try_recv_timeout(d)`: the wait handed to the kernel is `d` rounded down to whole milliseconds, or unbounded -/
 theorem pollArg_granularity (us : Nat) (hmul : Gen.pollUnitMul = 1) (hdiv : Gen.pollUnitDiv = 1000) :
